@@ -441,6 +441,16 @@ func main() {
 			K = append(K, c)
 		}
 	}
+	// packets decoded FIRST into the shared objects: the same seeds, and each seed cut to two
+	// thirds of its length (a truncated packet, so flags and half-filled layers are left behind)
+	KA := append([]dspace.Case(nil), K...)
+	for _, c := range K {
+		if n := len(c.Data) * 2 / 3; n > 0 {
+			t := c
+			t.Data, t.Seed, t.Dev = corpus.Exact(c.Data[:n]), c.Seed+" cut to 2/3", 1
+			KA = append(KA, t)
+		}
+	}
 	phases := []enum.Phase{
 		{Name: "equivalence", Len: int64(len(idx)),
 			Describe: func(i int64) any { return sp.NeighCase(idx[i]).Describe() },
@@ -485,14 +495,14 @@ func main() {
 					}
 				})
 			}},
-		{Name: "stale-state-pairs", Len: int64(len(K)) * int64(len(K)),
+		{Name: "stale-state-pairs", Len: int64(len(KA)) * int64(len(K)),
 			Describe: func(i int64) any {
-				a, b := K[i/int64(len(K))], K[i%int64(len(K))]
+				a, b := KA[i/int64(len(K))], K[i%int64(len(K))]
 				return map[string]any{"first_decoded": a.Describe(), "then_decoded": b.Describe()}
 			},
 			Run: func(i int64, w *enum.Worker) {
 				x.w = w
-				a, b := K[i/int64(len(K))], K[i%int64(len(K))]
+				a, b := KA[i/int64(len(K))], K[i%int64(len(K))]
 				fa, _ := firstOf(a)
 				fb, _ := firstOf(b)
 				if fa != fb {
@@ -501,11 +511,15 @@ func main() {
 				w.Guard("harness", func() {
 					for cont := 0; cont < 4; cont += 3 {
 						p, objs := build(fb, full, cont, 0)
+						// both settings of IgnorePanic (the array-container run lets panics through; a
+						// panic of a decoder is C19's subject and ends this pair)
+						p.IgnorePanic = cont == 3
 						var d []gopacket.LayerType
 						p.DecodeLayers(corpus.Exact(a.Data), &d)
 						errB := p.DecodeLayers(corpus.Exact(b.Data), &d)
 						truncB := p.Truncated
 						pf, fresh := build(fb, full, cont, 0)
+						pf.IgnorePanic = p.IgnorePanic
 						var df []gopacket.LayerType
 						errF := pf.DecodeLayers(corpus.Exact(b.Data), &df)
 						w.Count("pairs", 1)
@@ -527,7 +541,7 @@ func main() {
 				})
 			}},
 	}
-	r.Coverage["rule"] = "equivalence: every input of the deviation<=1 neighbourhoods of the Ethernet/IPv4/IPv6 seeds; reference = NewPacket(DSAD) observed through a wrapper builder (which decoder call failed, where SetTruncated was called); expected parser result = leading run of packet layers inside the set (hop-by-hop folded into IPv6) up to the first type outside the set or the first failing layer. Parsed with the full 12-member universe in 4 containers (map, sparse, array, custom slice) x filled by Put / by AddDecodingLayer, every 11-member subset, IgnoreUnsupported on/off, decoded pre-filled with junk; for unmodified seeds every one of the 4096 subsets and the two other first layers. Compared: error class, reported type list, Truncated, and (deep) every field of every reported preallocated object against the packet's layer. stale-state: every ordered pair (A,B) of unmodified seeds with the same first layer decoded into the same objects; B's result must equal B decoded into fresh objects, field by field. distinct_nontrivial = distinct (packet layer sequence, failing index) of the references."
+	r.Coverage["rule"] = "equivalence: every input of the deviation<=1 neighbourhoods of the Ethernet/IPv4/IPv6 seeds; reference = NewPacket(DSAD) observed through a wrapper builder (which decoder call failed, where SetTruncated was called); expected parser result = leading run of packet layers inside the set (hop-by-hop folded into IPv6) up to the first type outside the set or the first failing layer. Parsed with the full 12-member universe in 4 containers (map, sparse, array, custom slice) x filled by Put / by AddDecodingLayer, every 11-member subset, IgnoreUnsupported on/off, decoded pre-filled with junk; for unmodified seeds every one of the 4096 subsets and the two other first layers. Compared: error class, reported type list, Truncated, and (deep) every field of every reported preallocated object against the packet's layer. stale-state: every ordered pair (A,B), A an unmodified seed or a seed cut to two thirds of its length, B an unmodified seed with the same first layer, decoded into the same objects (map container with IgnorePanic off, array container with IgnorePanic on); B's result must equal B decoded into fresh objects, field by field. distinct_nontrivial = distinct (packet layer sequence, failing index) of the references."
 	r.Coverage["stale_corpus"] = len(K)
 	r.Assumptions = []string{"field comparison by reflection over exported and unexported fields (nil slice == empty slice, the checksum back-pointer ignored)", "the wrapper PacketBuilder attributes failures and SetTruncated calls to decoder calls by nesting"}
 	enum.Main(r, phases)
